@@ -167,6 +167,11 @@ def _chaos():
     return _chaos_n[0] % _CHAOS == 0
 
 
+def chaos():
+    """Public hook for check-local comparison helpers (self-test only)."""
+    return _chaos()
+
+
 def num_equal(a, b, *, exact, scale=0.0):
     """a == b (NaN == NaN); tolerant: |a-b| <= 1e-10*scale + 1e-300."""
     if _chaos():
